@@ -17,9 +17,9 @@ def history_key(m):
 
 # rule (prefix) -> stats keys that count its evaluations
 SPECS = {
-    'C02': dict(level='translation_validation', engines=['GEN'], rules=['G-CAP', 'G-LAYOUT', 'G-ANCHOR'],
+    'C02': dict(level='translation_validation', engines=['GEN'], rules=['G-CAP', 'G-LAYOUT', 'G-ANCHOR', 'G-DEF'],
                 stats=['cap_accesses', 'cap_layouts', 'layout_records'],
-                what='every typed access of every generated function fits MAX_SIZE, is offset-aligned for rustc\'s align_of, and repr(align) of the record types is a multiple of it'),
+                what='every typed access of every generated function fits MAX_SIZE, is offset-aligned for rustc\'s align_of, and repr(align) of the record types is a multiple of it; every definition recorded by the corpus build (incl. shapes whose size is not a multiple of their alignment) has its data aligned, inside the capacity and listed in address order'),
     'C03': dict(level='translation_validation', engines=['GEN', 'SRC'], rules=['G-LAYOUT', 'G-MOVED', 'W1', 'B-APPEND'],
                 stats=['layout_records', 'cap_layouts', 'kind:conv'],
                 what='offsets are written only by strategy code and only for ids of data being added; all record types of a module have one repr(align) and one field type, rustc layouts agree for several capacities; kept data stay at their (offset,type)'),
@@ -143,6 +143,7 @@ def evidence(prop, spec, res, tier, seed, nviol, nknown, wall):
         cov['programs'] = len(mods)
         cov['gen_stats'] = {k: st.get(k, 0) for k in sorted(st)}
         cov['corpus_modules_enumerated'] = g.get('corpus_modules')
+        cov['definitions_checked'] = g.get('definitions_checked')
         cov['samples'] = g.get('samples', [])[:4]
         cov['module_labels'] = [m['label'] for m in mods][:400]
     if w:
